@@ -52,7 +52,8 @@ def gen(tier, seed):
                 for u in us:
                     qs.append({"ix": ix, "j": j, "u": fs(u)})
             cases.append({"U": fsl(U), "p": p, "kind": v["kind"], "mults": v["mults"],
-                          "W": fsl(rand_weights(rnd, n)) if rational else None, "qs": qs})
+                          "W": fsl(rand_weights(rnd, n)) if rational else None, "qs": qs,
+                          "seqnodes": fsl(rnd.sample(nodes[:-2], len(nodes) - 2))})
     return cases
 
 
@@ -82,6 +83,15 @@ def impl(case):
         c = capture(lambda: out_num(f[0](u)))
         d = capture(lambda: out_num(f[0, p](u)))
         aliases.append(a == b and c == d)
+    # one call on a whole (unsorted) sequence of in-range nodes = the scalar calls, in order
+    seqnodes = nums(case["seqnodes"])
+    for j in range(p + 1):
+        a = capture(lambda: [out_nums(list(row)) for row in f[:, j](tuple(seqnodes))])
+        b = capture(lambda: [[out_num(f[i, j](u)) for u in seqnodes] for i in range(int(f.npts))])
+        aliases.append(a == b and "ok" in a)
+    a = capture(lambda: out_nums(list(f[-1](tuple(seqnodes)))))
+    b = capture(lambda: [out_num(f[-1, p](u)) for u in seqnodes])
+    aliases.append(a == b and "ok" in a)
     return {"p": p, "r": outs, "aliases_ok": all(aliases)}
 
 
